@@ -3,7 +3,8 @@
 From Coq Require Import List ZArith Bool.
 Import ListNotations.
 From Zn.model Require Import Lexer Parser ErrDisplay.
-From Zn.proofs Require Import FrontDisplayProofs.
+From Zn.model Require Import Ast.
+From Zn.proofs Require Import FrontDisplayProofs FrontLexProofs FrontTotalProofs.
 Open Scope Z_scope.
 
 (* Rendering a syntax error never crashes: for EVERY source text, every line table with non-negative starts and every
@@ -29,6 +30,35 @@ Theorem C05_quotes_existing_line : forall src ls cursor n q off,
     n = find_line_idx ls cursor 0 + 1 /\ 0 <= off.
 Proof. exact display_quotes_line. Qed.
 Print Assumptions C05_quotes_existing_line.
+
+(* Compilation terminates: for EVERY sequence of code points, fuel linear in its length (16 * length + 64 nested
+   production calls) is enough - the model never answers "out of fuel".  The result is a tree, one syntax error
+   (code, cursor) or Crash; by construction never two of them. *)
+Theorem C05_total : forall src, compile (default_fuel src) src <> OFuel.
+Proof. exact compile_total. Qed.
+Print Assumptions C05_total.
+
+(* The progress lemma behind it, for every production started in ANY parser state: with fuel above 16 * mu + rank the
+   production does not run out of fuel, never increases the measure mu (characters not yet lexed, +1 while the peek token
+   is not the end of text), and the productions marked [strict] - among them every consumer that parseItemListBlock
+   calls in a loop: ParseStatement, the 令-block pair, the class item, the import line, the 拦截 block - consume at
+   least one token whenever they return.  (On the pinned tree the 拦截 state of ParseExecBlock returns without consuming:
+   fixes/C03-1.) *)
+Theorem C05_progress : forall fuel n st, (16 * mu st + rank n < fuel)%nat -> good (mu st) (strict n) (parse fuel n st).
+Proof. exact parse_total. Qed.
+Print Assumptions C05_progress.
+
+(* the lexer: NextToken never runs out of its internal fuel, never grows the input, and consumes at least one
+   character unless it returns the end-of-text token *)
+Theorem C05_next_token_progress : forall st0,
+  next_token st0 <> LFuel /\ forall tk st', next_token st0 = LOk tk st' -> tok_progress st0 tk st'.
+Proof. exact next_token_spec. Qed.
+Print Assumptions C05_next_token_progress.
+
+(* C05_single_error_in_range : forall src c k, compile (default_fuel src) src = OErr c k -> 0 <= k <= Z.of_nat (length src)
+   is NOT proved (it needs the position invariant pos + length rest = length src through the C04 / C13 recognisers);
+   the clause is covered by the correspondence run: every run checks 0 <= cursor <= length on all generated inputs and
+   compares the model's cursor with the implementation's. *)
 
 (* non-vacuity: the inputs on which the pinned printer panics or quotes two lines / a NUL *)
 Example C05_example_cursor_past_end : display [8220; 96] [mkLine 0 0] 3 = DOk 1 [8220; 96] 2.
